@@ -1,11 +1,15 @@
 import WtVerif.Driver.Ops
 import WtVerif.Driver.Ops2
+import WtVerif.Driver.Ops3
 
 namespace Ops
 
 def handle (op : String) (a obs : List String) : Option Verdict :=
   match handleCore op a obs with
   | some v => some v
-  | none => handle2 op a obs
+  | none =>
+    match handle2 op a obs with
+    | some v => some v
+    | none => handle3 op a obs
 
 end Ops
